@@ -14,6 +14,7 @@ Decided (structural necessary conditions; networkx's search itself is trusted):
                    the first element of the forward path and goes through the reverse OMS of every crossed OMS;
                    explicit_path returns only when first/last OMS touch the end ROADMs and consecutive OMS are adjacent.
  Rm memo          : every memoisation construct in the functions behind this property is keyed by everything it reads.
+ Rp presence      : optional numeric fields are tested with `is None` / membership, never by truthiness (0 is a value).
 """
 import ast
 
@@ -303,5 +304,10 @@ from ..memo import rule_for as _memo_rule
 
 RULES_MEMO = ('Rm.memo', _memo_rule('C11', 'a route computed for another request or topology would be returned'))
 
+
+from ..presence import rule_for as _presence_rule
+
+RULES_PRESENCE = ('Rp.presence', _presence_rule('C11', 'a legal zero would be read as missing'))
+
 RULES = [('R1.metric', r1_metric), ('R2.outcomes', r2_outcomes), ('R3.reasons', r3_reasons), ('R4.route-lists', r4_route_lists),
-         ('R5.helpers', r5_helpers), RULES_MEMO]
+         ('R5.helpers', r5_helpers), RULES_MEMO, RULES_PRESENCE]
